@@ -123,6 +123,9 @@ def under(path, prefix):
 
 CONTENTS = [b"", b"A", b"hello world\n", b"HELLO WORLD\n", b"dup-content", bytes(range(256)) * 3,
             bytes((i * 7 + 3) % 251 for i in range(1 << 20)) + b"tail"]
+N_COMMON = len(CONTENTS)      # the generators draw from these, so that contents collide
+# contents reserved for targeted shapes that need bytes the object has never held before
+CONTENTS += [b"reserved content %d\n" % k for k in range(40)]
 
 
 class Scratch:
@@ -249,6 +252,23 @@ def purge_scenario(cfg):
     return ops
 
 
+def mv_guard_scenario(cfg):
+    """scripted history (external staging, fresh handle per operation): object B gets staged new content, then an
+    external mv into object A names B's staged content file, B's staged object directory, a committed content file
+    of A and the storage root as sources - each must be refused and change nothing (C08 hook: the staged form of
+    B, the main repository).  `literal_src` entries are resolved by the runner against the scratch roots."""
+    a, b = obj_id(cfg, 0), obj_id(cfg, 2)
+    ops = [{"op": "new", "id": a}, {"op": "cp_ext", "id": a, "files": [["a.txt", 1]], "dst": "a.txt", "recursive": False},
+           {"op": "commit", "id": a},
+           {"op": "new", "id": b}, {"op": "cp_ext", "id": b, "files": [["b.txt", 2]], "dst": "b.txt", "recursive": False},
+           {"op": "commit", "id": b},
+           {"op": "cp_ext", "id": b, "files": [["bnew.txt", N_COMMON + 1]], "dst": "bnew.txt", "recursive": False}]
+    for lit in (["staged-file", b, "bnew.txt"], ["staged-root", b], ["committed-file", a, "a.txt"], ["storage-root"], ["staging-root"]):
+        ops.append({"op": "mv_ext", "id": a, "literal_src": [lit], "dst": "taken"})
+    ops.append({"op": "commit", "id": b})
+    return ops
+
+
 def stranger_ids(cfg, main_rel_roots):
     """ids of objects that NEVER exist in the history but whose layout path is related to an existing object's
     root (a prefix directory, a path inside it, another id mapped to the same root) plus degenerate ids:
@@ -287,14 +307,14 @@ def gen_history(rng, cfg, length, n_objects=2):
             nm = rng.choice(NAMES)
             style = rng.random()
             if style < 0.6:
-                ops.append({"op": "cp_ext", "id": oid, "files": [[os.path.basename(nm), rng.randrange(len(CONTENTS))]], "dst": nm, "recursive": False})
+                ops.append({"op": "cp_ext", "id": oid, "files": [[os.path.basename(nm), rng.randrange(N_COMMON)]], "dst": nm, "recursive": False})
             elif style < 0.8:
                 ops.append({"op": "cp_ext", "id": oid,
-                            "files": [[rng.choice(["p.txt", "q.txt"]), rng.randrange(len(CONTENTS))] for _ in range(2)],
+                            "files": [[rng.choice(["p.txt", "q.txt"]), rng.randrange(N_COMMON)] for _ in range(2)],
                             "dst": rng.choice(["dir", "dir/", "/", "newdir/"]), "recursive": False})
             else:
                 ops.append({"op": "mv_ext", "id": oid,
-                            "dir": ["d%d" % rng.randrange(2), {"m.txt": rng.randrange(len(CONTENTS)), "n/o.txt": rng.randrange(len(CONTENTS))}],
+                            "dir": ["d%d" % rng.randrange(2), {"m.txt": rng.randrange(N_COMMON), "n/o.txt": rng.randrange(N_COMMON)}],
                             "dst": rng.choice(["dir", "moved", "/"])})
         elif r < 0.42:
             ops.append({"op": rng.choice(["cp_int", "cp_int", "mv_int"]), "id": oid,
@@ -361,6 +381,8 @@ class Runner:
             return dict(cmd="cp_ext", h=h, id=op["id"], src=src, dst=op["dst"], recursive=op.get("recursive", False))
         if o == "mv_ext":
             src = []
+            for lit in op.get("literal_src", []):
+                src.append(self.literal_source(lit))
             if "files" in op:
                 src += [self.sc.source_file(n, CONTENTS[c] if isinstance(c, int) else c) for n, c in op["files"]]
             if "dir" in op:
@@ -398,6 +420,31 @@ class Runner:
         if o == "upgrade_repo":
             return dict(cmd="upgrade_repo", h=h, spec=op["spec"])
         raise ValueError(o)
+
+    def literal_source(self, lit):
+        """absolute path of a place INSIDE the repository (hostile mv source)"""
+        kind = lit[0]
+        if kind == "storage-root":
+            return self.root
+        if kind == "staging-root":
+            return self.staging_root
+        h = hashlib.sha256(lit[1].encode("utf-8")).hexdigest()
+        sroot = os.path.join(self.staging_root, h[0:3], h[3:6], h[6:9], h)
+        if kind == "staged-root":
+            return sroot
+        if kind == "staged-file":
+            inv = read_inventory(sroot) or {}
+            return os.path.join(sroot, inv.get("head", "v1"), inv.get("contentDirectory", self.cfg["cdir"]), lit[2])
+        if kind == "committed-file":
+            for r in find_object_roots(self.root):
+                inv = read_inventory(r)
+                if inv and inv.get("id") == lit[1]:
+                    for cps in inv["manifest"].values():
+                        for cp in cps:
+                            if cp.endswith("/" + lit[2]):
+                                return os.path.join(r, cp)
+            return os.path.join(self.root, "no-such-committed-file")
+        raise ValueError(lit)
 
     def step(self, op):
         if self.cfg.get("fresh_handle"):
